@@ -53,6 +53,8 @@ def build_registry(mods):
             reg.add_contract(c)
         for f, mm in m.models.items():
             reg.models[f] = mm
+        for f, ab in getattr(m, 'abstractions', {}).items():
+            reg.abstractions[f] = ab
         for ls in m.loops:
             reg.loops[(ls.qname, ls.ordinal)] = ls
     from contracts import common
